@@ -46,7 +46,7 @@ func setup(env *runner.Env) error {
 func init() {
 	runner.Register(&runner.Prop{
 		ID: "C07",
-		Rule: "One case = one clear single-track CMAF input (own generator: AVC avc1/avc3, HEVC hvc1/hev1 with SPS/PPS/slice headers from the harness' serializer so that the slice-header byte length is ground truth, pps id != sps id, decoy SPS, CABAC/CAVLC, varying frame_num/poc widths, IDR/non-IDR, emulation prevention inside headers; AAC/AC-3 audio sizes 0..4095 covering every residue mod 16; " +
+		Rule: "One case = one clear single-track CMAF input (own generator: AVC avc1/avc3, HEVC hvc1/hev1 with SPS/PPS/slice headers from the harness' serializer so that the slice-header byte length is ground truth, pps id != sps id, decoy SPS, CABAC/CAVLC, varying frame_num/poc widths, IDR/non-IDR, emulation prevention inside headers; half of the generated cases switch the HEVC reference-picture shapes on (extra PRNG stream, the other draws stay as they are): B, P and I slices, explicitly coded short-term sets in the SPS (0..5) and in the slice header with used-by-curr counts before/after the current picture (1,0) (0,1) (2,1) (1,3) (1,1) (2,0) (0,2) (2,2) (3,1) (0,0) (1,2) (3,0) (0,3) (4,1) plus unused pictures, long-term pictures from the SPS (lt_idx_sps) and from the slice header, PPS lists_modification_present_flag with ref_pic_lists_modification( ) absent (NumPicTotalCurr 0/1) or present with flag_l0/l1 and list_entry_lX of 1..4 bits, num_ref_idx overrides up to 8 entries, mvd_l1_zero, collocated_from_l0, weighted bi-prediction tables; never inter RPS prediction; AAC/AC-3 audio sizes 0..4095 covering every residue mod 16; " +
 			"VCL NAL sizes 5..15, 16, 17..91, 92..130, 131..999, ~1k, ~70k; non-VCL NAL > 65535 bytes; 1..4 fragments, optional uuid/unknown/free/pssh boxes in moof/traf) x one configuration (scheme cenc|cbcs, key random|zero|ff, IV 8|16 bytes incl. low-64-bit and 128-bit wrap), " +
 			"encrypted through InitProtect/EncryptFragment/Encode (reader or slice reader, combined or separate init, ExtractInitProtectData) or through the mp4ff-encrypt binary (combined or -init). Pinned cases first (88): clear runs of exactly 65534..65537, 131069..131072, 196605/196606 bytes, samples with 39/40/42/43 protected NAL units, senc layouts that also tile with a wrong IV size, the repo's 7 real clear streams x scheme x IV length (slice-header clause not evaluated for those); then 6000 (quick) / 250000 (thorough) random cases. " +
 			"A case is non-trivial when the encryption succeeded and at least one sample has >= 2 sub-sample entries or a protected part that is not a multiple of 16 bytes; distinct_nontrivial counts distinct (clear file, configuration) hashes; evaluations counts samples checked.",
@@ -55,6 +55,7 @@ func init() {
 			"AES-CTR counter is incremented as a 128-bit big-endian number (the library always writes 16-byte per-sample IVs)",
 			"slice header length = number of NAL bytes (NAL header and emulation prevention bytes included) that hold slice-header bits; when an emulation prevention byte sits exactly between header and slice data both positions are accepted",
 			"a refusal to encrypt (error) is outside C07 (nothing was encrypted); it is counted and left to C06",
+			"HEVC ground truth: every generated SPS, PPS and slice segment header is also serialized from the same values by the independent ref/h265 encoder; both must give the same bits, the same header length and the same NumPicTotalCurr, otherwise the case is inconclusive (generator_selfcheck_failed), never a violation",
 		},
 		Setup:      setup,
 		NumCases:   func(env *runner.Env) int { return len(cencgen.Plan(nRandom(env))) },
@@ -76,6 +77,18 @@ func init() {
 			if a.Counters["cbcs_start_evaluated"] == 0 {
 				a.Note("no cbcs slice-header start was compared with the generator's ground truth")
 			}
+			for _, want := range []string{"type=B", "type=P", "long-term=", "lists-modification=present", "lists-modification=absent/NumPicTotalCurr:1",
+				"used-by-curr=s0:1,s1:0,lt:0", "used-by-curr=s0:0,s1:1,lt:0", "used-by-curr=s0:2,s1:1,lt:0", "used-by-curr=s0:1,s1:3,lt:0"} {
+				n := int64(0)
+				for k, v := range a.Seen["cbcs_hevc_slice_header"] {
+					if strings.HasPrefix(k, want) {
+						n += v
+					}
+				}
+				if n == 0 {
+					a.Note("no cbcs slice-header start was evaluated for an HEVC slice segment header with %s", want)
+				}
+			}
 			if len(a.Seen["nonvcl_over_65535"]) == 0 {
 				a.Note("no non-VCL NAL unit > 65535 bytes was seen in an encrypted sample")
 			}
@@ -83,6 +96,9 @@ func init() {
 				if a.Seen["vcl_size_class"][cl+"/protected"]+a.Seen["vcl_size_class"][cl+"/clear"] == 0 {
 					a.Note("VCL NAL size class %s never observed", cl)
 				}
+			}
+			if n := a.Counters["encrypt_rejected_generated_sample_not_understood"]; n > 0 {
+				a.Note("%d generated video inputs were refused because the library could not determine the protected ranges of a generated sample (slice header not understood?); outside C07 since nothing was encrypted, see encrypt_error", n)
 			}
 			if a.Counters["encrypt_rejected"]*4 > a.Counters["encrypted_files"] {
 				a.Note("%d of %d inputs were refused by the encryptor (see encrypt_error)", a.Counters["encrypt_rejected"], a.Counters["encrypt_rejected"]+a.Counters["encrypted_files"])
@@ -153,9 +169,23 @@ var recycledKey [32]byte
 
 func run(c *runner.Ctx, idx int) {
 	it := plan[idx]
+	if it.Kind != "real" {
+		// half of the generated cases get the HEVC reference-picture shapes (they only change HEVC tracks);
+		// what they add is drawn from a stream of its own, the draws of the other shapes stay as they were
+		xr := runner.NewRand(uint64(c.Env.Seed), runner.HashStr("C07/hevc-refpic-shapes"), uint64(idx))
+		if xr.Bool() {
+			it.Shape.RefPics = xr
+		}
+	}
 	cs, cfg, err := cencgen.Build(c.Rand, it, reals)
 	if err != nil {
 		c.Inconclusive("generator: " + errClass(err))
+		return
+	}
+	if cs.SelfCheck != "" {
+		// the two independent HEVC serializers (gen/cencgen, ref/h265) disagree: no ground truth for this case
+		c.Seen("generator_selfcheck_failed", errClass(fmt.Errorf("%s", cs.SelfCheck)))
+		c.Inconclusive("generator self-check: gen/cencgen and ref/h265 disagree on the HEVC syntax of this case")
 		return
 	}
 	c.Seen("item_kind", it.Kind)
@@ -222,6 +252,11 @@ func run(c *runner.Ctx, idx int) {
 	if err != nil {
 		c.Count("encrypt_rejected", 1)
 		c.Seen("encrypt_error", x.pre+": "+errClass(err))
+		if cs.Kind == "gen" && cs.Media == "video" && strings.Contains(err.Error(), "get protect ranges") {
+			// the library could not walk a sample whose NAL layout and slice headers are the generator's own
+			// (and, for HEVC, confirmed by ref/h265): still a refusal, not a C07 violation, but worth a note
+			c.Count("encrypt_rejected_generated_sample_not_understood", 1)
+		}
 		return
 	}
 	c.Count("encrypted_files", 1)
@@ -854,8 +889,11 @@ func (x *ctx) classify(fi, si int, nals []cencgen.NAL, ranges []cenc.Range) {
 				continue
 			}
 			x.c.Count("cbcs_start_evaluated", 1)
+			for _, tg := range n.Tags {
+				x.c.Seen("cbcs_hevc_slice_header", tg)
+			}
 			if startIn < n.HdrMin || startIn > n.HdrMax {
-				x.viol("c2", "cbcs-start-vs-slice-header"+tk, fmt.Sprintf("%s: protected range starts %d bytes into the NAL unit, the slice header is %d bytes long (NAL starts %x)", where, startIn, n.HdrMin, clip(n.Data)[:minInt(24, len(n.Data))]))
+				x.viol("c2", "cbcs-start-vs-slice-header"+tk, fmt.Sprintf("%s: protected range starts %d bytes into the NAL unit, the slice header is %d bytes long (NAL starts %x; header shape %v)", where, startIn, n.HdrMin, clip(n.Data)[:minInt(24, len(n.Data))], n.Tags))
 			}
 		}
 	}
